@@ -33,7 +33,7 @@ ASSUMPTIONS = ["names are free of '/' and ':' and differ from '.' and '..'",
                "objects belong to a Document (relative paths whose common parent is the root are absolute)"]
 REQUIRED_MONITORS = ["abs-path", "rel-path", "traversal", "find"]
 
-NAMES = ["a", "ab", "abc", "a b", "a.b", "b", "ba", "abcd"]
+NAMES = ["a", "ab", "A", "a b", "Ab", "b", "ba", "abcd", "abc", "a.b", "AB"]
 TYPES = ["t", "T/sub", "u", "stim/white_noise", "t", u"Stra\u00dfe", u"\u03a3\u03af\u03c3\u03c5\u03c6\u03bf\u03c2/sub"]
 
 
@@ -219,7 +219,7 @@ def check_tree(doc, rec, case, full=True):
                                                                    if vf(p.__dict__["_values"])]:
                 rec.violation("traversal/itervalues-filter/differs", "from %r max_depth=%r" % (_nm(s), md), case)
     # ---- find / find_related
-    keys = [None] + NAMES[:3]
+    keys = [None] + NAMES[:3] + ["AB", "aB"]
     types = [None, "t", "T", "sub", "u", u"Stra\u00dfe", u"STRA\u1e9eE", u"\u03c3\u03af\u03c3\u03c5\u03c6\u03bf\u03c2"]
     for s in (starts if full else [doc] + secs[:4]):
         for key in keys:
